@@ -418,6 +418,39 @@ fn search(oracle: &str, seed: u64) -> Outcome {
                 }
                 None
             }
+            "naive_carry" => {
+                domain = "texts with a 7-digit fraction at the carry boundary x field extremes, parsed as IntervalDT / Time / Timestamp";
+                exhaustive = false;
+                let fr: [i64; 6] = [0, 4, 5, 9_999_994, 9_999_995, 9_999_999];
+                for neg in [false, true] { for d in [0i64, 1, 99_999_999, 100_000_000] { for h in [0i64, 23] { for mi in [0i64, 59] { for sc in [0i64, 59] { for &f in &fr {
+                    n_eval += 1;
+                    let text = format!("{}{} {:02}:{:02}:{:02}.{:07}", if neg { "-" } else { "+" }, d, h, mi, sc, f);
+                    let total = d as i128 * DAY as i128 + (h * 3600 + mi * 60 + sc) as i128 * 1_000_000 + ((f + 5) / 10) as i128;
+                    let exp = if total <= 8_640_000_000_000_000_000 { format!("Ok(usecs={})", if neg { -total } else { total }) } else { "Err(..)".to_string() };
+                    let r = IntervalDT::parse(&text, "DD HH24:MI:SS.FF7");
+                    let act = match &r { Ok(v) => format!("Ok(usecs={})", v.usecs()), Err(_) => "Err(..)".to_string() };
+                    if act != exp { fail!(format!("IntervalDT::parse({:?}, \"DD HH24:MI:SS.FF7\")", text), exp, act); }
+                }}}}}}
+                for h in [0i64, 11, 23] { for mi in [0i64, 59] { for sc in [0i64, 59] { for &f in &fr {
+                    n_eval += 1;
+                    let text = format!("{:02}:{:02}:{:02}.{:07}", h, mi, sc, f);
+                    let total = (h * 3600 + mi * 60 + sc) * 1_000_000 + (f + 5) / 10;
+                    let exp = if total < DAY { format!("Ok(usecs={})", total) } else { "Err(..)".to_string() };
+                    let r = Time::parse(&text, "HH24:MI:SS.FF7");
+                    let act = match &r { Ok(v) => format!("Ok(usecs={})", v.usecs()), Err(_) => "Err(..)".to_string() };
+                    if act != exp { fail!(format!("Time::parse({:?}, \"HH24:MI:SS.FF7\")", text), exp, act); }
+                    for (y, m, dd) in [(1i64, 1i64, 1i64), (1969, 12, 31), (1970, 1, 1), (2024, 2, 29), (9999, 12, 31)] {
+                        n_eval += 1;
+                        let text = format!("{:04}-{:02}-{:02} {:02}:{:02}:{:02}.{:07}", y, m, dd, h, mi, sc, f);
+                        let e = days_from_civil(y, m, dd) as i128 * DAY as i128 + total as i128;
+                        let exp = if e >= TSMIN as i128 && e <= TSMAX as i128 { format!("Ok(usecs={})", e) } else { "Err(..)".to_string() };
+                        let r = Timestamp::parse(&text, "YYYY-MM-DD HH24:MI:SS.FF7");
+                        let act = match &r { Ok(v) => format!("Ok(usecs={})", v.usecs()), Err(_) => "Err(..)".to_string() };
+                        if act != exp { fail!(format!("Timestamp::parse({:?}, \"YYYY-MM-DD HH24:MI:SS.FF7\")", text), exp, act); }
+                    }
+                }}}}
+                None
+            }
             _ => { domain = "unknown oracle"; exhaustive = false; None }
         }
     })();
